@@ -3,6 +3,7 @@
 package xmpp
 
 import (
+	"errors"
 	"encoding/xml"
 	"fmt"
 	"strings"
@@ -10,6 +11,7 @@ import (
 
 	"gosrc.io/xmpp/stanza"
 	"verif/hx"
+	"verif/vnet"
 	"verif/vrt"
 )
 
@@ -56,14 +58,14 @@ func (l *c10ledger) classes() (must, may []string) {
 	return
 }
 
-func isStanzaName(n string) bool { return n == "message" || n == "presence" || n == "iq" }
+func c10stanzaName(n string) bool { return n == "message" || n == "presence" || n == "iq" }
 
 // absorb records the units the client wrote during a step and returns them raw.
 func (l *c10ledger) absorb(us []unit) []string {
 	var raws []string
 	for _, u := range us {
 		raws = append(raws, u.raw)
-		if u.kind == "element" && isStanzaName(u.name) {
+		if u.kind == "element" && c10stanzaName(u.name) {
 			id := -1
 			for k, e := range l.log {
 				if e.raw == u.raw {
@@ -160,7 +162,7 @@ func c10checkHeld(cl *Client, l *c10ledger, hist string) {
 	}
 }
 
-var c10ops = []string{"send-m", "raw-p", "send-mp", "send-r", "in-r", "a=0", "a=1", "a=w-1", "a=w", "a=w+1"}
+var c10ops = []string{"send-m", "raw-p", "send-mp", "send-r", "in-r", "a=0", "a=1", "a=w-1", "a=w", "a=w+1", "send-rp", "raw-r", "send-a", "raw-a"}
 
 func c10body(first []string, maxLen int, prelude bool) func() {
 	return func() {
@@ -237,6 +239,15 @@ func c10body(first []string, maxLen int, prelude bool) func() {
 				}
 			case "send-r":
 				_ = s.cl.Send(stanza.SMRequest{})
+			case "send-rp":
+				// the same element passed by pointer
+				_ = s.cl.Send(&stanza.SMRequest{})
+			case "raw-r":
+				_ = s.cl.SendRaw("<r xmlns='urn:xmpp:sm:3'/>")
+			case "send-a":
+				_ = s.cl.Send(stanza.SMAnswer{H: 0})
+			case "raw-a":
+				_ = s.cl.SendRaw("<a xmlns='urn:xmpp:sm:3' h='0'/>")
 			case "in-r":
 				sc.send("<r xmlns='urn:xmpp:sm:3'/>")
 			default: // a=...
@@ -305,7 +316,7 @@ func c10body(first []string, maxLen int, prelude bool) func() {
 				if len(raws) != 1 || raws[0] != l.log[len(l.log)-1].raw {
 					vrt.Fail("C10|send-wire-wrong", "history [%s]: wrote %q, want exactly %q", hist, raws, l.log[len(l.log)-1].raw)
 				}
-			case op == "send-r":
+			case op == "send-r" || op == "send-rp" || op == "raw-r" || op == "send-a" || op == "raw-a":
 				if len(raws) != 1 || !c10isNonza(raws[0]) {
 					vrt.Fail("C10|request-wire-wrong", "history [%s]: wrote %q for an acknowledgement request", hist, raws)
 				}
@@ -398,6 +409,68 @@ func c10conc(progs [][]string, ackH int) func() {
 
 // c10wire is the serialization a Send of p puts on the wire (whatever attribute order and
 // quoting the encoder uses: the check is about holding and re-sending it, not about its shape).
+// c10fault: the write of the k-th retransmitted stanza fails (the connection broke while the client was
+// sending again what an acknowledgement did not cover). Nothing that is unacknowledged may fall out of the
+// held queue: the session can still be resumed and must then send it again.
+func c10fault(nSent, ackH, failAt int, short bool) func() {
+	return func() {
+		s := newSess(sessOpts{sm: true, smResume: true, resumeAns: "failed"})
+		if s.cl == nil {
+			return
+		}
+		if err := s.cl.Connect(); err != nil {
+			vrt.Fail("C10|harness|connect", "%v", err)
+			return
+		}
+		vrt.WaitIdle()
+		sc := s.conn(0)
+		l := &c10ledger{}
+		l.absorb(append(sc.pending, sc.drainNew()...))
+		sc.pending = nil
+		hist := ""
+		for i := 0; i < nSent; i++ {
+			m := stanza.Message{Attrs: stanza.Attrs{To: "peer@example.org", Id: fmt.Sprintf("m%d", i), Type: "chat"}, Body: fmt.Sprintf("body %d", i)}
+			l.accept(c10wire(m), false)
+			if err := s.cl.Send(m); err != nil {
+				vrt.Fail("C10|send-error", "%v", err)
+			}
+			hist += "send-m "
+		}
+		vrt.WaitIdle()
+		l.absorb(sc.drainNew())
+		writes := 0
+		sc.raw.Peer().WriteFault = func(c *vnet.Conn, p []byte) (int, error) {
+			writes++
+			if writes-1 < failAt {
+				return -1, nil
+			}
+			// from here on the connection is broken for writing
+			if short && writes-1 == failAt {
+				return len(p) / 2, errors.New("write: connection reset by peer")
+			}
+			return 0, errors.New("write: broken pipe")
+		}
+		hist += fmt.Sprintf("a=%d with the write of retransmission #%d failing", ackH, failAt+1)
+		sc.send(fmt.Sprintf("<a xmlns='urn:xmpp:sm:3' h='%d'/>", ackH))
+		if ackH > l.acked {
+			l.acked = ackH
+		}
+		must, may := l.classes() // after the acknowledgement, before absorbing what was written again
+		vrt.WaitIdle()
+		l.absorb(sc.drainNew())
+		q := c10queue(s.cl)
+		vrt.Log("held %q", q)
+		switch c10match(q, must, may) {
+		case "missing":
+			vrt.Fail("C10|unacked-stanza-dropped-on-failed-retransmission", "history [%s]: held queue %q no longer holds the unacknowledged stanzas %q", hist, q, must)
+		case "duplicate", "order":
+			vrt.Fail("C10|held-order-or-duplicates", "history [%s]: queue %q, must hold in order %q", hist, q, must)
+		case "nonza":
+			vrt.Fail("C10|nonza-held", "history [%s]: the held queue contains a stream-management element (queue %q)", hist, q)
+		}
+	}
+}
+
 func c10wire(p interface{}) string {
 	b, err := xml.Marshal(p)
 	if err != nil {
@@ -450,6 +523,16 @@ func TestVerifC10(t *testing.T) {
 		for _, h := range []int{0, 1} {
 			scs = append(scs, hx.Scenario{Name: fmt.Sprintf("conc/%v/h=%d", progs, h), Opt: vrt.Options{Bound: cb, Horizon: 50000, TouchOn: []string{"Uslice"}},
 				Body: c10conc(progs, h), Verdict: c10verdict})
+		}
+	}
+	for _, n := range []int{2, 3, 4} {
+		for h := 1; h <= n; h++ { // h counts the initial presence: h=1 acknowledges none of the n messages
+			for k := 0; k < n-h+1; k++ {
+				for _, short := range []bool{false, true} {
+					scs = append(scs, hx.Scenario{Name: fmt.Sprintf("resend-fault/sent=%d/h=%d/fail-at=%d/short=%v", n, h, k, short), Opt: vrt.Options{Bound: thoroughBound(1)},
+						Body: c10fault(n, h, k, short), Verdict: c10verdict})
+				}
+			}
 		}
 	}
 	if hx.Main("C10", scs) == 2 {
